@@ -1,10 +1,10 @@
 (* Properties_C02.v -- the AMG cycle is a fixed linear, symmetric operator.
    Statements only; proofs in AmgProofs2.v (lock-step lemma), AmgProofs3.v (A1), AmgProofs4.v /
-   AmgProofs5.v (A2), AmgProofs6.v - AmgProofs9.v (A3).  Model: Amg.v cycle/apply (amgcl/amg.hpp:289-297, 515-553),
+   AmgProofs5.v (A2), AmgProofs6.v - AmgProofs9.v (A3), AmgProofs10.v (B1).  Model: Amg.v cycle/apply (amgcl/amg.hpp:289-297, 515-553),
    smoothers Relax.v, exact coarse solve DenseSolve.v. *)
 From Coq Require Import QArith Qcanon.
 From Amgcl Require Import Scalar QcInst Vec Crs Kernels KernelsProofs MatOps Relax DenseSolve Amg AmgExec
-  AmgProofs AmgProofs2 AmgProofs3 AmgProofs4 AmgProofs5 AmgProofs6 AmgProofs7 AmgProofs8 AmgProofs9 AmgExamples.
+  AmgProofs AmgProofs2 AmgProofs3 AmgProofs4 AmgProofs5 AmgProofs6 AmgProofs7 AmgProofs8 AmgProofs9 AmgProofs10 AmgOrderQc AmgExamples.
 Local Close Scope Qc_scope.
 Local Close Scope Q_scope.
 Local Open Scope S_scope.
@@ -327,14 +327,101 @@ Print Assumptions C02_apply_symmetric_exact_built_gs.
 (* The non-symmetry for npre <> npost is exhibited on the concrete hierarchy below
    (C02_example_asymmetric_when_npre_ne_npost).
 
-   FULL STATEMENT (unproved), B1 contraction in quadratic-form form (ordered field):
-   Inv(B,A) := (forall f g, <B f,g> = <f,B g>) /\ (forall g<>0, <B g,g> > 0) /\
-               (forall g, <A B g, B g> <= <B g, g>);
-   if A is symmetric positive definite, the coarse B_c satisfies Inv w.r.t. the Galerkin A_c
-   and the smoother satisfies <A x,x> <= 2 <D x,x> (damped Jacobi on weakly diagonally
-   dominant matrices) resp. M + M^T - A = D (symmetric GS), then the level's B satisfies Inv
-   and <A (e - B A e), e - B A e> < <A e, e> for e <> 0, for V- and W-cycles and pre_cycles
-   in {1,2}.
+*)
+
+(* ================================================================== *)
+(* B1  contraction in quadratic-form form (ordered ring; the order enters through
+   le0 x := (0 < x) = false and lt0 x := (x < 0) = true with the four closure facts below).
+   J_g(x) = <A x, x> - 2 <g, x>;  for A u = g:  J_g(x') - J_g(x) = <A(x'-u),x'-u> - <A(x-u),x-u>
+   (C02_energy_is_error_energy), so "J decreases" is "the energy norm of the error decreases".
+   hier_dec: smoothers decrease J on their level, A_l symmetric, R_l = P_l^T (dense), the next
+   matrix is the Galerkin form, the coarsest solve decreases J.  The cycle as a function of
+   (rhs, x) is Cyc k nc lvls (= fst (cycle k k nc lvls scr rhs x) for every well-formed scr). *)
+Theorem C02_cycle_energy_decrease {S : Scalar} (Srt : Sring S) (Seqb : seqb_spec S)
+  (O1 : le0 (@s0 S)) (O2 : forall a b : S, le0 a -> le0 b -> le0 (a + b))
+  k nc (lvls : list (@level S)) :
+  hier_dec lvls -> lvls <> [] -> it_dec (top_n lvls) (top_A lvls) (Cyc k nc lvls).
+Proof. exact (Cyc_dec Srt Seqb O1 O2 k nc lvls). Qed.
+Print Assumptions C02_cycle_energy_decrease.
+
+(* strictly, whenever the residual g - A x is non-zero (npre = npost = k+1, ncycle = nc+1) *)
+Theorem C02_cycle_energy_strict_decrease {S : Scalar} (Srt : Sring S) (Seqb : seqb_spec S)
+  (O1 : le0 (@s0 S)) (O2 : forall a b : S, le0 a -> le0 b -> le0 (a + b))
+  (O3 : forall a b : S, lt0 a -> le0 b -> lt0 (a + b))
+  k nc (lvls : list (@level S)) :
+  hier_dec lvls -> top_strict lvls ->
+  it_sdec (top_n lvls) (top_A lvls) (Cyc (Datatypes.S k) (Datatypes.S nc) lvls).
+Proof. exact (Cyc_sdec Srt Seqb O1 O2 O3 k nc lvls). Qed.
+Print Assumptions C02_cycle_energy_strict_decrease.
+
+Theorem C02_cycle_function {S : Scalar} (Seqb : seqb_spec S) k nc (lvls : list (@level S)) :
+  hier_wf lvls -> forall scr f x, scratch_wf lvls scr ->
+  length f = top_n lvls -> length x = top_n lvls ->
+  fst (cycle k k nc lvls scr f x) = Cyc k nc lvls f x.
+Proof. exact (Cyc_any Seqb k nc lvls). Qed.
+Print Assumptions C02_cycle_function.
+
+(* the preconditioner B g = apply(g): <A B g, B g> <= 2 <g, B g>, strictly for g <> 0
+   (with A positive semi-definite this gives <B g, g> > 0: B is positive definite) *)
+Theorem C02_apply_energy {S : Scalar} (Srt : Sring S) (Seqb : seqb_spec S)
+  (O1 : le0 (@s0 S)) (O2 : forall a b : S, le0 a -> le0 b -> le0 (a + b))
+  k nc pc (lvls : list (@level S)) :
+  hier_dec lvls -> lvls <> [] ->
+  forall scr g x, scratch_wf lvls scr -> length g = top_n lvls -> length x = top_n lvls ->
+  let B := fst (apply k k nc (Datatypes.S pc) lvls scr g x) in
+  le0 (qA (top_n lvls) (top_A lvls) B B - two * ip (top_n lvls) g B).
+Proof. exact (apply_energy Srt Seqb O1 O2 k nc pc lvls). Qed.
+Print Assumptions C02_apply_energy.
+
+Theorem C02_apply_energy_strict {S : Scalar} (Srt : Sring S) (Seqb : seqb_spec S)
+  (O1 : le0 (@s0 S)) (O2 : forall a b : S, le0 a -> le0 b -> le0 (a + b))
+  (O3 : forall a b : S, lt0 a -> le0 b -> lt0 (a + b))
+  k nc pc (lvls : list (@level S)) :
+  hier_dec lvls -> top_strict lvls ->
+  wf (top_A lvls) = true -> sym_mat (top_n lvls) (top_A lvls) ->
+  forall scr g x, scratch_wf lvls scr -> length g = top_n lvls -> length x = top_n lvls ->
+  g <> vzero (top_n lvls) ->
+  let B := fst (apply (Datatypes.S k) (Datatypes.S k) (Datatypes.S nc) (Datatypes.S pc) lvls scr g x) in
+  lt0 (qA (top_n lvls) (top_A lvls) B B - two * ip (top_n lvls) g B).
+Proof. exact (apply_energy_strict Srt Seqb O1 O2 O3 k nc pc lvls). Qed.
+Print Assumptions C02_apply_energy_strict.
+
+Theorem C02_energy_is_error_energy {S : Scalar} (Srt : Sring S) n (A : crs S) (g x x' u : vec S) :
+  wf A = true -> nrows A = n -> sym_mat n A ->
+  length g = n -> length x = n -> length x' = n -> length u = n ->
+  (forall i, i < n -> Ax A u i = vget g i) ->
+  dJ n A g x x' =
+  qA n A (vlin s1 x' (sopp s1) u) (vlin s1 x' (sopp s1) u) -
+  qA n A (vlin s1 x (sopp s1) u) (vlin s1 x (sopp s1) u).
+Proof. exact (dJ_error Srt n A g x x' u). Qed.
+Print Assumptions C02_energy_is_error_energy.
+
+(* the model's coarse operator satisfies the Galerkin condition of hier_dec ... *)
+Theorem C02_galerkin_energy {S : Scalar} (Srt : Sring S) (A P R : crs S) n n' :
+  wf A = true -> wf P = true -> wf R = true -> nrows P = n -> transp n n' R P ->
+  forall u : vec S, qA n A (mv P u) (mv P u) = qA n' (sort_rows (galerkin A P R)) u u.
+Proof. exact (galerkin_energy Srt A P R n n'). Qed.
+Print Assumptions C02_galerkin_energy.
+
+(* ... and the exact coarse solve satisfies the solver condition for positive semi-definite A *)
+Theorem C02_exact_solve_energy {S : Scalar} (Sft : Sfield S) (Seqb : seqb_spec S)
+  (O1 : le0 (@s0 S)) (A : crs S) :
+  ncols A = nrows A -> wf A = true -> sym_mat (nrows A) A -> psd (nrows A) A ->
+  it_dec (nrows A) A (mk_solve_exact A).
+Proof. exact (exact_solve_dec Sft Seqb O1 A). Qed.
+Print Assumptions C02_exact_solve_energy.
+
+(* FULL STATEMENT (unproved), rest of B1:
+   (a) the smoother conditions of hier_dec / top_strict discharged from matrix properties:
+       it_dec / it_sdec (sm n (damped Jacobi w)) when <A v, v> <= (2/w) <D v, v> (e.g. weakly
+       diagonally dominant symmetric A with positive diagonal and 0 < w <= 1), and for the
+       symmetric Gauss-Seidel pair from M + M^T - A = D > 0; for ILU / Chebyshev they stay
+       hypotheses;
+   (b) the third clause of Inv, <A B g, B g> <= <B g, g> (only <= 2 <B g, g> is proved), and
+       "spectral radius of I - B A < 1" (follows from the strict energy decrease by the textbook
+       eigenvector argument, not formalised);
+   (c) for the re-scaled Galerkin operator of plain aggregation the Galerkin condition of
+       hier_dec does not hold (A_c = s R A P with s <> 1), B1 is stated for coarse_op = galerkin.
    FULL STATEMENT (unproved), B2 scaling: apply (amg_init (c*A)) = (1/c) * apply (amg_init A). *)
 
 (* ================================================================== *)
@@ -405,6 +492,18 @@ Theorem C02_apply_symmetric_exact_Qc kd ce dc ml sc ts (M : crs QcS) k nc pc :
 Proof. exact (built_apply_sym_exact QcS_field QcS_eqb (fun a => eq_refl) kd ce dc ml sc ts M k nc pc). Qed.
 Print Assumptions C02_apply_symmetric_exact_Qc.
 
+Theorem C02_apply_energy_strict_Qc k nc pc (lvls : list (@level QcS)) :
+  hier_dec lvls -> top_strict lvls ->
+  wf (top_A lvls) = true -> sym_mat (top_n lvls) (top_A lvls) ->
+  forall scr g x, scratch_wf lvls scr -> length g = top_n lvls -> length x = top_n lvls ->
+  g <> vzero (top_n lvls) ->
+  let B := fst (apply (Datatypes.S k) (Datatypes.S k) (Datatypes.S nc) (Datatypes.S pc) lvls scr g x) in
+  lt0 (qA (top_n lvls) (top_A lvls) B B - two * ip (top_n lvls) g B).
+Proof.
+  exact (apply_energy_strict QcS_ring QcS_eqb QcS_le0_0 QcS_le0_add QcS_lt0_add k nc pc lvls).
+Qed.
+Print Assumptions C02_apply_energy_strict_Qc.
+
 (* ================================================================== *)
 (* non-vacuity: the hypothesis sets hold on a concrete 3-level hierarchy over Qc
    (AmgExampleData.v: 1D Laplacian n = 4, two pairwise aggregations, damped Jacobi 2/3,
@@ -466,6 +565,49 @@ Proof.
   split; [apply (gs_levels_check QcS_eqb); vm_compute; reflexivity|].
   split; exact I.
 Qed.
+
+(* the structural part of hier_dec (symmetry, R = P^T, Galerkin condition, lengths) holds on the
+   matrices produced by the model; the smoothers of this witness are the identity sweeps, for
+   which the energy condition is trivial (the conditions for Jacobi / Gauss-Seidel are listed
+   as unproved above) *)
+Example C02_example_B1_structural_hypotheses :
+  let idsw : @sweep QcS := fun _ x t => (x, t) in
+  let A := sort_rows exM in let P := sort_rows exP1 in let R := sort_rows exR1 in
+  let Ac := sort_rows (galerkin A P R) in
+  hier_dec [mkLevel A P R idsw idsw None; mkLevel Ac empty_crs empty_crs idsw idsw None].
+Proof.
+  intros idsw A P R Ac.
+  assert (Hid : forall n (M : crs QcS), it_dec n M (sm n idsw))
+    by (intros n M; apply (id_dec QcS_ring QcS_le0_0 n M)).
+  assert (Hok : forall n, sweep_ok n idsw) by (intro n; apply id_sweep_ok).
+  cbn [hier_dec lA lR lP lpre lpost lsolve].
+  split; [apply Hok|]. split; [apply Hok|]. split; [vm_compute; reflexivity|].
+  split; [apply (sym_matb_ok QcS_eqb); vm_compute; reflexivity|].
+  split; [apply Hid|]. split; [apply Hid|]. split.
+  - split; [vm_compute; reflexivity|]. split; [vm_compute; reflexivity|].
+    split; [vm_compute; reflexivity|]. split; [vm_compute; reflexivity|]. split.
+    + apply (transpb_ok QcS_eqb). vm_compute. reflexivity.
+    + intros u _. apply (galerkin_energy QcS_ring A P R).
+      * vm_compute. reflexivity.
+      * vm_compute. reflexivity.
+      * vm_compute. reflexivity.
+      * vm_compute. reflexivity.
+      * apply (transpb_ok QcS_eqb). vm_compute. reflexivity.
+  - split; [apply Hok|]. split; [apply Hok|]. split; [vm_compute; reflexivity|].
+    split; [apply (sym_matb_ok QcS_eqb); vm_compute; reflexivity|].
+    split; [apply Hid|]. split; [apply Hid|]. split; [intros sv E; discriminate|exact I].
+Qed.
+
+(* B1 on the concrete hierarchy (V(1,1) and W(2,2), Jacobi 2/3, direct coarse solve): the energy
+   functional at B g is negative, <A B g, B g> < 2 <g, B g>, and <B g, g> > 0 *)
+Example C02_example_B1_concrete :
+  let z := [exq 0; exq 0; exq 0; exq 0] in
+  let A := sort_rows exM in
+  let Jat := fun (B : vec QcS) => ssub (qA 4 A B B) (smul two (ip 4 exF B)) in
+  sltb (Jat (fst (apply 1 1 1 1 exLvls exScr0 exF z))) s0 = true /\
+  sltb (Jat (fst (apply 2 2 2 1 exLvls exScr0 exF z))) (Jat (fst (apply 1 1 1 1 exLvls exScr0 exF z))) = true /\
+  sltb s0 (ip 4 (fst (apply 1 1 1 1 exLvls exScr0 exF z)) exF) = true.
+Proof. vm_compute. auto. Qed.
 
 (* symmetry needs the symmetric schedule: with npre = 1, npost = 0 (and with npre = 2, npost = 1)
    the same hierarchy gives <B f, g> <> <f, B g> *)
